@@ -101,9 +101,19 @@ def is_call(e, callee=None, name=None):
 
 
 def const_val(e):
-    e = strip_casts(e)
-    if isinstance(e, dict) and "cv" in e:
-        return e["cv"]
+    """Compile-time integer value of an expression (clang's constant evaluator), or None."""
+    while isinstance(e, dict):
+        if "cv" in e:
+            return e["cv"]
+        if "cvu" in e:
+            return int(e["cvu"])
+        if e.get("k") == "cast":
+            e = e.get("e")
+            continue
+        if e.get("k") == "initlist" and len(e.get("args", [])) == 1:
+            e = e["args"][0]
+            continue
+        break
     return None
 
 
@@ -224,6 +234,8 @@ class Fn:
         self._pdom = None
         self._preds = None
         self._reach_cache = {}
+        self._live = None
+        self._abnormal = None
 
     # ---- identity -------------------------------------------------------------------------
     @property
@@ -251,11 +263,28 @@ class Fn:
         return [g for g in self.facts.tu_functions(self.tu) if g.parent_id == self.id]
 
     # ---- graph -----------------------------------------------------------------------------
+    def abnormal_blocks(self):
+        """Blocks that end in a throw or a noreturn call (abort, terminate): control does not
+        continue to their CFG successor (clang links them to the exit block)."""
+        if self._abnormal is None:
+            ab = set()
+            for b, blk in self.blocks.items():
+                if blk.get("noreturn"):
+                    ab.add(b)
+                elif blk["elems"] and blk["elems"][-1].get("k") == "throw":
+                    ab.add(b)
+            self._abnormal = ab
+        return self._abnormal
+
     def succs(self, b):
+        if b in self.abnormal_blocks():
+            return []
         return [s for s in self.blocks[b]["succs"] if s is not None]
 
     def succ_edges(self, b):
         """[(index, succ)] with pruned edges omitted."""
+        if b in self.abnormal_blocks():
+            return []
         return [(i, s) for i, s in enumerate(self.blocks[b]["succs"]) if s is not None]
 
     def preds(self):
@@ -303,8 +332,19 @@ class Fn:
                     extra[b].update(handlers[t])
         return extra
 
-    def events(self):
+    def live_blocks(self):
+        """Blocks reachable from the entry (catch handlers count as reachable from their try body);
+        branches pruned by clang because their condition is a compile-time constant in this
+        instantiation (if (kPlaced) ...) are dead and excluded."""
+        if self._live is None:
+            self._live = self.reachable_blocks(extra_edges=self.eh_edges())
+        return self._live
+
+    def events(self, include_dead=False):
+        live = None if include_dead else self.live_blocks()
         for b in sorted(self.blocks, reverse=True):
+            if live is not None and b not in live:
+                continue
             for i, ev in enumerate(self.blocks[b]["elems"]):
                 yield Pos(b, i), ev
 
@@ -322,7 +362,10 @@ class Fn:
         for pos, ev in self.events():
             for n in subexprs(ev, seen):
                 yield pos, n
+        live = self.live_blocks()
         for b, blk in self.blocks.items():
+            if b not in live:
+                continue
             t = blk.get("term")
             if t and t.get("cond") is not None:
                 for n in subexprs(t["cond"], seen):
@@ -431,7 +474,10 @@ class Fn:
 
     # ---- guards ----------------------------------------------------------------------------
     def branch_blocks(self):
+        live = self.live_blocks()
         for b, blk in self.blocks.items():
+            if b not in live:
+                continue
             t = blk.get("term")
             if t and t.get("cond") is not None and len(blk["succs"]) == 2:
                 yield b, t
@@ -506,9 +552,12 @@ class Fn:
         prev = {}
 
         def push_succs(b):
-            if self.blocks[b].get("noreturn") and not include_noreturn:
-                return
-            nxt = list(self.succs(b))
+            if b in self.abnormal_blocks():
+                if not include_noreturn:
+                    return
+                nxt = [x for x in self.blocks[b]["succs"] if x is not None]
+            else:
+                nxt = list(self.succs(b))
             if extra_edges and b in extra_edges:
                 nxt += list(extra_edges[b])
             for s in nxt:
